@@ -35,6 +35,8 @@ def isOk {α : Type} : R α → Bool
   | .ok _ => true
   | .error _ => false
 
+def valIs (a b : Val) : Bool := Val.beq a b
+
 /-! ## a pipeline is the left-to-right fold of its stages -/
 
 /-- **pipeline_is_fold.** Running `p ++ q` is running `p`, then `q` on its output (an error of `p`
@@ -259,10 +261,12 @@ example : isOk (Pipe.groupStage (.doc [("_id", .str "$k"), ("n", .doc [("$sum", 
 
 /-- **group_partition (on D: scalar keys, no booleans).** The groups have pairwise different
     keys; the group of key `k` holds exactly the documents whose key is equal to `k`, in input
-    order; every document's key has a group.  `kds` is the input paired with its keys. -/
+    order; every document's key has a group.  `kds` is the input paired with its keys.  The `_id`
+    expression is anything but null — a constant (0, "", …) included: its value is the key of the
+    one group.  (`_partial`: boolean and document keys are the findings groupboolnum, groupdockey.) -/
 theorem group_partition_partial (options : Fields) (idExpr : Val) (docs out : List Val)
     (kds : List (Val × Val))
-    (hid : dget "_id" options = some idExpr) (ht : idExpr.truthy = true)
+    (hid : dget "_id" options = some idExpr) (ht : Expr.isNull idExpr = false)
     (hk : Pipe.keyed idExpr docs = .ok kds) (hK : ∀ p ∈ kds, groupKeyOk p.1 = true)
     (h : Pipe.groupStage (.doc options) docs = .ok out) :
     (kds.map (·.2) = docs ∧ ∀ p ∈ kds, Pipe.groupKey idExpr p.2 = .ok p.1) ∧
@@ -278,10 +282,30 @@ theorem group_partition_partial (options : Fields) (idExpr : Val) (docs out : Li
     Pipe.Proofs.groupStage_partition options idExpr docs out kds hid ht hk hK h
   exact ⟨rs, Pipe.Proofs.emitGroups_ok options rs out h1, h2, h3, h4⟩
 
-/-- the hypotheses are inhabited: keys 1, "x", 1, null (missing) over the sample -/
+/-- the hypotheses are inhabited: keys 1, "x", 1, null (missing) over the sample; and the falsy
+    constant `0` is a key expression like any other -/
 example : (match Pipe.keyed (.str "$k") sample with
     | .ok kds => kds.all (fun p => groupKeyOk p.1) && kds.length == 4
-    | .error _ => false) = true := by decide +kernel
+    | .error _ => false) = true ∧
+    Expr.isNull (.int 0) = false ∧
+    (match Pipe.keyed (.int 0) sample with
+     | .ok kds => kds.all (fun p => valIs p.1 (.int 0)) && kds.length == 4
+     | .error _ => false) = true := by decide +kernel
+
+/-- **group_null_id / group_empty_input.** `_id: null` puts every document in ONE group, in input
+    order; and over no input `$group` answers no group at all — whatever the `_id` expression,
+    a constant included. -/
+theorem group_null_id (options : Fields) (docs : List Val)
+    (hid : dget "_id" options = some .null) :
+    Pipe.groupStage (.doc options) docs =
+      Pipe.emitGroups options (if docs.isEmpty then [] else [(.null, docs)]) :=
+  Pipe.Proofs.groupStage_null_id options docs hid
+
+theorem group_empty_input (options : Fields) (idExpr : Val)
+    (hid : dget "_id" options = some idExpr) : Pipe.groupStage (.doc options) [] = .ok [] :=
+  Pipe.Proofs.groupStage_empty options idExpr hid
+
+example : dget "_id" [("_id", Val.null), ("n", .doc [("$sum", .int 1)])] = some .null := rfl
 
 /-- on such keys Python's `==` is MongoDB's key equality (the tie of the BSON order) -/
 theorem group_key_equality (a b : Val) (ha : groupKeyOk a = true) (hb : groupKeyOk b = true) :
@@ -317,34 +341,32 @@ theorem accumulators_spec (values : List Val) (is : List Int) :
   ⟨Pipe.Proofs.acc_push values, Pipe.Proofs.acc_first values, Pipe.Proofs.acc_last values,
    Pipe.Proofs.acc_sum_ints is⟩
 
-/-- the values an accumulator folds: the expression on every document of the group in input
-    order, documents on which it is missing skipped -/
-theorem accumulator_values (key : Val) (g vs : List Val) (h : Pipe.accValues key g = .ok vs) :
+/-- the values an accumulator folds: its expression — evaluated like every computed field
+    (`Expr.evalExpr`: an operator reads a missing operand as null) — on every document of the
+    group in input order; a document on which the value is missing is skipped, except by `$first`
+    / `$last`, which read null there (`seenValues`) -/
+theorem accumulator_values (firstLast : Bool) (key : Val) (g vs : List Val)
+    (h : Pipe.accValues firstLast key g = .ok vs) :
     ∃ rs : List (Option Val),
-      List.Forall₂ (fun d r => Expr.evalExprStrict d key = .ok r) g rs ∧ vs = specPush rs :=
-  Pipe.Proofs.accValues_ok key g vs h
+      List.Forall₂ (fun d r => Expr.evalExpr d key = .ok r) g rs ∧
+      vs = Pipe.Proofs.seenValues firstLast rs :=
+  Pipe.Proofs.accValues_ok firstLast key g vs h
 
-example : isOk (Pipe.accValues (.str "$a") sample) = true := by decide +kernel
+example : isOk (Pipe.accValues false (.str "$a") sample) = true ∧
+    isOk (Pipe.accValues true (.str "$zz") sample) = true := by decide +kernel
 
-def valIs (a b : Val) : Bool := Val.beq a b
+/-- **first_last_spec.** `$first` / `$last` answer the value of the group's first / last
+    document, NULL when it is missing there — at full strength, whatever the values. -/
+theorem first_last_spec (rs : List (Option Val)) :
+    Pipe.accApply "$first" (Pipe.Proofs.seenValues true rs) = .ok (specFirst rs) ∧
+    Pipe.accApply "$last" (Pipe.Proofs.seenValues true rs) = .ok (specLast rs) :=
+  ⟨Pipe.Proofs.acc_first_seen rs, Pipe.Proofs.acc_last_seen rs⟩
 
-/-- the full-strength `$first` law: the value on the group's first document, null when missing -/
-def first_spec_full : Prop :=
-  ∀ (key : Val) (g : List Val),
-    (match Pipe.accValues key g with
-     | .ok vs => (match Pipe.accApply "$first" vs with
-                  | .ok v => valIs v (specFirst (g.map (fun d =>
-                      match Expr.evalExprStrict d key with | .ok r => r | .error _ => none)))
-                  | .error _ => true)
-     | .error _ => true) = true
-
-/-- False of the code as it stands (known finding `firstmissing`): documents missing the field
-    are skipped, so `$first` answers the first PRESENT value instead of null. -/
-theorem first_spec_full_fails : ¬ first_spec_full := by
-  intro h
-  have := h (.str "$a") [.doc [("_id", .int 0)], .doc [("_id", .int 1), ("a", .int 7)]]
-  revert this
-  decide +kernel
+/-- the former witness of `firstmissing`: the first document lacks the field → null -/
+example : (match Pipe.accValues true (.str "$a")
+      [.doc [("_id", .int 0)], .doc [("_id", .int 1), ("a", .int 7)]] with
+    | .ok vs => (match Pipe.accApply "$first" vs with | .ok v => valIs v .null | .error _ => false)
+    | .error _ => false) = true := by decide +kernel
 
 /-- the full-strength `$addToSet` law: the distinct values -/
 def addToSet_spec_full : Prop :=
@@ -352,11 +374,12 @@ def addToSet_spec_full : Prop :=
     | .ok v => valIs v (.arr (specAddToSet vs))
     | .error _ => true) = true
 
-/-- False of the code as it stands (known finding `addtosetfalsy`): `val or None` turns 0 into
-    null. -/
+/-- False of the code as it stands (finding `addtosetboolnum`, of the family of `groupboolnum`):
+    membership is Python's `==`, so `true` and `1` are one value.  (Falsy values are kept as they
+    are since the repair of `addtosetfalsy`: see `acc_addToSet_spec_partial`.) -/
 theorem addToSet_spec_full_fails : ¬ addToSet_spec_full := by
   intro h
-  have := h [.int 0, .int 1]
+  have := h [.bool true, .int 1]
   revert this
   decide +kernel
 
@@ -629,23 +652,28 @@ open MongoModel.Spec
 
 /-! ### accumulators -/
 
-/-- **acc_minmax_spec (partial).** Over values of ONE class — numbers, strings or naive dates,
-    nulls skipped (`oneClass`) — `$min` / `$max` answer the smallest / largest value in the BSON
-    order, the earliest among equals, null when there is none. -/
-theorem acc_minmax_spec_partial (values : List Val) (h : oneClass values = true) :
+/-- **acc_minmax_spec.** Over scalar values of ANY types — null (skipped), booleans, numbers,
+    strings, naive dates, ObjectIds: everything `Spec.Order.valLt` places (`orderScalar`; arrays
+    and documents are outside that order: scope) — `$min` / `$max` answer the smallest / largest
+    value in the BSON order, the earliest among equals, null when there is none. -/
+theorem acc_minmax_spec (values : List Val) (h : values.all orderScalar = true) :
     Pipe.accApply "$min" values = .ok (specExtremum false (values.map some)) ∧
     Pipe.accApply "$max" values = .ok (specExtremum true (values.map some)) :=
   ⟨by simpa [Pipe.accApply] using Pipe.Proofs.acc_minmax false values h,
    by simpa [Pipe.accApply] using Pipe.Proofs.acc_minmax true values h⟩
 
-example : oneClass [.int 3, .null, .dbl 5 1, .int (-2)] = true ∧
-    oneClass [.str "b", .str "a", .null] = true ∧
-    oneClass [.date 1000 none, .date 0 none] = true := by decide +kernel
-
 def accIs (r : R Val) (v : Val) : Bool :=
   match r with
   | .ok x => valIs x v
   | .error _ => false
+
+/-- several types at once (the former witness of `minmaxtypes` is the first line): a string is
+    larger than every number, a boolean larger than both -/
+example : [Val.int 1, .str "x"].all orderScalar = true ∧
+    accIs (Pipe.accApply "$max" [.int 1, .str "x"]) (.str "x") = true ∧
+    accIs (Pipe.accApply "$min" [.str "b", .null, .dbl 5 1, .bool false, .int (-2)]) (.int (-2)) = true ∧
+    accIs (Pipe.accApply "$max" [.str "b", .null, .dbl 5 1, .bool false, .int (-2)]) (.bool false) = true ∧
+    [Val.date 1000 none, .date 0 none, .oid 3].all orderScalar = true := by decide +kernel
 
 /-- the oracle answers exactly this value / these documents (a decidable check: `Val` has
     structural `beq`, no `DecidableEq`) -/
@@ -659,49 +687,27 @@ def optDocsAre (r : Option (List Val)) (l : List Val) : Bool :=
   | some x => beqList x l
   | none => false
 
-/-- the full-strength `$max` law: the largest value in the BSON order, whatever the types -/
-def minmax_spec_full : Prop :=
-  ∀ values : List Val, accIs (Pipe.accApply "$max" values) (specExtremum true (values.map some)) = true
-
-/-- False of the code as it stands (known finding `minmaxtypes`): a number and a string raise
-    TypeError; MongoDB answers the string (strings sort after numbers). -/
-theorem minmax_spec_full_fails : ¬ minmax_spec_full := by
-  intro h
-  have := h [.int 1, .str "x"]
-  revert this
-  decide +kernel
-
-/-- **acc_sum_spec (partial).** `$sum` adds the integers and ignores what is not a number, when
-    no value is a boolean (finding `sumbool`) or a double (outside the integer oracle). -/
-theorem acc_sum_spec_partial (values : List Val) (h : values.all sumOk = true) :
+/-- **acc_sum_spec.** `$sum` adds the integers and ignores what is not a number — a boolean
+    included — when no value is a double (outside the integer oracle: scope). -/
+theorem acc_sum_spec (values : List Val) (h : values.all sumOk = true) :
     Pipe.accApply "$sum" values = .ok (.int (specSumInt (values.map some))) :=
   Pipe.Proofs.acc_sum values (fun v hv => List.all_eq_true.mp h v hv)
 
-example : [Val.int 3, .str "x", .null, .int 4].all sumOk = true := by decide +kernel
+/-- (the second line is the former witness of `sumbool`) -/
+example : [Val.int 3, .str "x", .null, .bool true, .int 4].all sumOk = true ∧
+    accIs (Pipe.accApply "$sum" [.bool true, .int 2]) (.int 2) = true := by decide +kernel
 
-/-- the full-strength `$sum` law over values without doubles -/
-def sum_spec_full : Prop :=
-  ∀ values : List Val, values.any isDblV = false →
-    accIs (Pipe.accApply "$sum" values) (.int (specSumInt (values.map some))) = true
-
-/-- False of the code as it stands (known finding `sumbool`): `true` counts as 1. -/
-theorem sum_spec_full_fails : ¬ sum_spec_full := by
-  intro h
-  have := h [.bool true, .int 2] (by decide)
-  revert this
-  decide +kernel
-
-/-- **acc_avg_spec (partial).** `$avg` over integers (non-numbers ignored, no boolean, no double)
+/-- **acc_avg_spec.** `$avg` over integers (non-numbers — booleans included — ignored, no double)
     is the EXACT average `sum / count` written as the double `m / 2^e` in lowest terms
     (`binFraction`), null when there is no number — whenever that average is a double
     (`specAvgInt` is `some`, 53 bits of mantissa: `avgFits`). -/
-theorem acc_avg_spec_partial (values : List Val) (v : Val) (h : values.all sumOk = true)
+theorem acc_avg_spec (values : List Val) (v : Val) (h : values.all sumOk = true)
     (hs : specAvgInt (values.map some) = some v) (hf : avgFits v = true) :
     Pipe.accApply "$avg" values = .ok v :=
   Pipe.Proofs.acc_avg values (fun x hx => List.all_eq_true.mp h x hx) v hs hf
 
-example : [Val.int 5, .str "x", .int 2].all sumOk = true ∧
-    optValIs (specAvgInt ([Val.int 5, .str "x", .int 2].map some)) (.dbl 7 1) = true ∧
+example : [Val.int 5, .str "x", .bool true, .int 2].all sumOk = true ∧
+    optValIs (specAvgInt ([Val.int 5, .str "x", .bool true, .int 2].map some)) (.dbl 7 1) = true ∧
     avgFits (.dbl 7 1) = true := by decide +kernel
 
 /-- the characterisation of the fraction: `m / 2^e = s / n` exactly, with the least `e` -/
@@ -712,16 +718,18 @@ theorem avg_is_exact (s : Int) (n : Nat) (m : Int) (e : Nat) (h : binFraction s 
 example : binFraction 7 2 = some (7, 1) ∧ binFraction 6 4 = some (3, 1) ∧ binFraction 7 3 = none := by
   decide +kernel
 
-/-- **acc_addToSet_spec (partial).** Over scalar values that are truthy or null (`setOk`: a falsy
-    value would be turned into null, finding `addtosetfalsy`) `$addToSet` answers each distinct
-    value once, by first appearance. -/
+/-- **acc_addToSet_spec (partial).** Over scalar values that are no booleans (`setOk`; a boolean
+    is merged with 0 / 1: finding `addtosetboolnum`) `$addToSet` answers each distinct value once,
+    AS IT IS — 0, "" and null are values like the others —, by first appearance. -/
 theorem acc_addToSet_spec_partial (values : List Val) (h : values.all setOk = true) :
     Pipe.accApply "$addToSet" values = .ok (.arr (specAddToSet values)) :=
   Pipe.Proofs.acc_addToSet values (fun v hv => List.all_eq_true.mp h v hv)
 
-example : [Val.int 3, .str "x", .null, .dbl 3 0, .int 3, .str "x"].all setOk = true ∧
-    beqList (specAddToSet [Val.int 3, .str "x", .null, .dbl 3 0, .int 3, .str "x"])
-      [.int 3, .str "x", .null] = true := by decide +kernel
+/-- (the former witness of `addtosetfalsy`, `[5, 0, 7]`, is the second line) -/
+example : [Val.int 3, .str "", .null, .dbl 3 0, .int 0, .str ""].all setOk = true ∧
+    beqList (specAddToSet [Val.int 5, .int 0, .int 7]) [.int 5, .int 0, .int 7] = true ∧
+    beqList (specAddToSet [Val.int 3, .str "", .null, .dbl 3 0, .int 0, .str ""])
+      [.int 3, .str "", .null, .int 0] = true := by decide +kernel
 
 /-- … and the oracle's set really is "each distinct value once": a sub-list of the values with
     pairwise different elements in which every value has an equal representative. -/
@@ -732,32 +740,23 @@ theorem addToSet_is_a_set (values : List Val) :
   ⟨Pipe.Proofs.distinctKeys_sublist values, Pipe.Proofs.distinctKeys_pairwise values,
    Pipe.Proofs.distinctKeys_cover values⟩
 
-/-- **acc_first_last_spec (partial).** `$first` / `$last` answer the value on the group's first /
-    last document (null when it is missing there) whenever skipping the documents without a value
-    does not change the answer (`firstOk`; otherwise finding `firstmissing`). -/
-theorem acc_first_last_spec_partial (vals : List (Option Val)) :
-    (firstOk vals = true → Pipe.accApply "$first" (specPush vals) = .ok (specFirst vals)) ∧
-    (firstOk vals.reverse = true → Pipe.accApply "$last" (specPush vals) = .ok (specLast vals)) :=
-  ⟨fun h => by rw [Pipe.Proofs.acc_first, Pipe.Proofs.specFirst_present vals h],
-   fun h => by rw [Pipe.Proofs.acc_last, Pipe.Proofs.specLast_present vals h]⟩
-
-example : firstOk [some (.int 1), none, some (.int 3)] = true ∧
-    firstOk [some (Val.int 1), none, some (.int 3)].reverse = true ∧
-    firstOk ([none, none] : List (Option Val)) = true := by decide +kernel
-
 /-- **accumulator_eq_spec (partial).** All eight accumulators at once: on the values `vals` the
-    accumulator's expression takes on a group (`none` = missing), outside every exclusion class
-    of `accReasons`, the code's accumulator — which sees the present values only — answers the
-    oracle's value. -/
+    accumulator's expression takes on a group (`none` = missing), outside the exclusion classes
+    of `accReasons` (one finding — addtosetboolnum — and the scope limits sumfloat, avginexact,
+    minmaxscope, setscope), the code's accumulator — which sees the present values, `$first` /
+    `$last` also the missing ones as null — answers the oracle's value. -/
 theorem accumulator_eq_spec_partial (op : String) (vals : List (Option Val)) (v : Val)
     (hD : accReasons op vals = []) (hs : specAcc op vals = some v) :
-    Pipe.accApply op (specPush vals) = .ok v :=
+    Pipe.accApply op (Pipe.Proofs.seenValues (op = "$first" || op = "$last") vals) = .ok v :=
   Pipe.Proofs.accApply_eq_spec op vals v hD hs
 
 example : accReasons "$avg" [some (.int 5), none, some (.int 2)] = [] ∧
     optValIs (specAcc "$avg" [some (.int 5), none, some (.int 2)]) (.dbl 7 1) = true ∧
-    accReasons "$max" [some (.str "a"), some .null, some (.str "b")] = [] ∧
-    optValIs (specAcc "$max" [some (.str "a"), some .null, some (.str "b")]) (.str "b") = true := by
+    accReasons "$max" [some (.str "a"), some .null, some (.int 7)] = [] ∧
+    optValIs (specAcc "$max" [some (.str "a"), some .null, some (.int 7)]) (.str "a") = true ∧
+    accReasons "$first" [none, some (.int 7)] = [] ∧
+    optValIs (specAcc "$first" [none, some (.int 7)]) .null = true ∧
+    accReasons "$addToSet" [some (.int 0), some (.str ""), some (.int 0)] = [] := by
   decide +kernel
 
 /-! ### `$group` -/
@@ -769,14 +768,14 @@ def groupSpec : Val := .doc [("_id", .str "$k"), ("n", .doc [("$sum", .int 1)]),
   ("p", .doc [("$push", .str "$a")]), ("st", .doc [("$addToSet", .str "$k")]),
   ("t", .doc [("$sum", .doc [("$multiply", .arr [.str "$a", .str "$_id"])])])]
 
-/-- **group_eq_spec (partial).** On the domain `groupReasons = []` — scalar non-boolean keys, key
-    expression in the C04 domain and not a falsy constant (a null `_id` is allowed over a
-    non-empty input), accumulators among the eight whose argument is in the C04 domain and is a
-    field path / variable / constant or ONE variadic operator over such operands that all have a
-    value (`accArgReasons`: the code evaluates the argument with missing values propagating),
-    values outside the accumulator exclusion classes — the `$group` stage answers the groups
-    of `Spec.specGroups`, each with its accumulator values, as a multiset: a permutation of the
-    oracle's documents, each up to the place of `_id` (`Spec.Proj.idLast`). -/
+/-- **group_eq_spec (partial).** On the domain `groupReasons = []` — scalar non-boolean keys
+    (boolean and document keys: findings groupboolnum, groupdockey), key expression in the C04
+    domain — ANY expression, a constant (0, "", null) included, over any input, the empty one
+    included —, accumulators among the eight whose argument is in the C04 domain (it is evaluated
+    like every computed field), values outside the accumulator exclusion classes — the `$group`
+    stage answers the groups of `Spec.specGroups`, each with its accumulator values, as a
+    multiset: a permutation of the oracle's documents, each up to the place of `_id`
+    (`Spec.Proj.idLast`). -/
 theorem group_eq_spec_partial (opts : Val) (docs s : List Val)
     (hD : groupReasons opts docs = []) (hs : specGroupStage opts docs = some s) :
     ∃ out, Pipe.groupStage opts docs = .ok out ∧ out.Perm (s.map Spec.Proj.idLast) :=
@@ -785,10 +784,30 @@ theorem group_eq_spec_partial (opts : Val) (docs s : List Val)
 example : groupReasons groupSpec sample = [] ∧ (specGroupStage groupSpec sample).isSome = true ∧
     ((specGroupStage groupSpec sample).map List.length) = some 3 := by decide +kernel
 
-/-- a null `_id` over a non-empty input is inside the domain: one group -/
+/-- a null `_id` is inside the domain: one group — and none over no input (the former witness
+    of `groupnullempty`); so is a falsy constant `_id`, reported as it is (`groupfalsyid`) -/
 example : groupReasons (.doc [("_id", .null), ("n", .doc [("$sum", .int 1)])]) sample = [] ∧
     optDocsAre (specGroupStage (.doc [("_id", .null), ("n", .doc [("$sum", .int 1)])]) sample)
-      [.doc [("_id", .null), ("n", .int 4)]] = true := by decide +kernel
+      [.doc [("_id", .null), ("n", .int 4)]] = true ∧
+    groupReasons (.doc [("_id", .null), ("n", .doc [("$sum", .int 1)])]) [] = [] ∧
+    optDocsAre (specGroupStage (.doc [("_id", .null), ("n", .doc [("$sum", .int 1)])]) []) [] = true ∧
+    groupReasons (.doc [("_id", .int 0), ("n", .doc [("$sum", .int 1)])]) sample = [] ∧
+    optDocsAre (specGroupStage (.doc [("_id", .int 0), ("n", .doc [("$sum", .int 1)])]) sample)
+      [.doc [("_id", .int 0), ("n", .int 4)]] = true ∧
+    groupReasons (.doc [("_id", .str ""), ("n", .doc [("$sum", .int 1)])]) [] = [] := by
+  decide +kernel
+
+/-- an operator as accumulator argument reads a missing operand as null — the former witness of
+    `accmissing`, `{$push: {$add: ["$a", "$zz"]}}`, is inside the domain and pushes null; a
+    missing FIELD PATH is skipped by `$push` and read as null by `$first` -/
+example : groupReasons (.doc [("_id", .null),
+      ("p", .doc [("$push", .doc [("$add", .arr [.str "$a", .str "$zz"])])]),
+      ("q", .doc [("$push", .str "$zz")]), ("f", .doc [("$first", .str "$zz")])]) [d0] = [] ∧
+    optDocsAre (specGroupStage (.doc [("_id", .null),
+      ("p", .doc [("$push", .doc [("$add", .arr [.str "$a", .str "$zz"])])]),
+      ("q", .doc [("$push", .str "$zz")]), ("f", .doc [("$first", .str "$zz")])]) [d0])
+      [.doc [("_id", .null), ("p", .arr [.null]), ("q", .arr []), ("f", .null)]] = true := by
+  decide +kernel
 
 /-- **group_eq_spec_sorted (partial).** … and the order is determined: the code lists the groups
     in ascending BSON order of their keys and writes `_id` last — exactly the representative
@@ -812,38 +831,14 @@ def group_eq_spec_full : Prop :=
   ∀ (opts : Val) (docs : List Val),
     agreeB (Pipe.groupStage opts docs) (specGroupStageSorted opts docs) = true
 
-/-- False of the code as it stands (known finding `groupfalsyid`): `_id: 0` reports `_id: null`. -/
+/-- False of the code as it stands (known finding `groupboolnum`): the keys `1` and `true` are
+    one group for `itertools.groupby` (Python `==`) when the sort leaves them adjacent; MongoDB
+    keeps a boolean and a number apart. -/
 theorem group_eq_spec_full_fails : ¬ group_eq_spec_full := by
   intro h
-  have := h (.doc [("_id", .int 0), ("n", .doc [("$sum", .int 1)])]) sample
+  have := h (.doc [("_id", .str "$k"), ("n", .doc [("$sum", .int 1)])])
+    [.doc [("_id", .int 0), ("k", .int 1)], .doc [("_id", .int 1), ("k", .bool true)]]
   revert this
-  decide +kernel
-
-/-- the full-strength statement about operator arguments of an accumulator -/
-def group_operator_arg_full : Prop :=
-  ∀ (e : Val) (docs : List Val),
-    agreeB (Pipe.groupStage (.doc [("_id", .null), ("p", .doc [("$push", e)])]) docs)
-      (specGroupStageSorted (.doc [("_id", .null), ("p", .doc [("$push", e)])]) docs) = true
-
-/-- False of the code as it stands (finding `accmissing`, of the family of `firstmissing`): the
-    argument is parsed without `ignore_missing_keys`, so `{$add: ["$a", "$zz"]}` on a document
-    without `zz` raises KeyError and the document is skipped — `$push` answers `[]`; by the rules
-    the operator reads the missing operand as null and `$push` answers `[null]`. -/
-theorem group_operator_arg_full_fails : ¬ group_operator_arg_full := by
-  intro h
-  have := h (.doc [("$add", .arr [.str "$a", .str "$zz"])]) [d0]
-  revert this
-  decide +kernel
-
-/-- the accumulator argument is read strictly; inside `accArgReasons` that is the lenient reading
-    of the C04 theorem -/
-theorem accumulator_argument_strict (e : Val) (g : List Val) (h : accArgReasons e g = []) :
-    ∀ d ∈ g, Expr.evalExprStrict d e = Expr.evalExpr d e :=
-  Pipe.Proofs.accArg_strict e g h
-
-example : accArgReasons (.doc [("$multiply", .arr [.str "$a", .str "$_id"])]) sample = [] ∧
-    accArgReasons (.str "$zz") sample = [] ∧
-    accArgReasons (.doc [("$add", .arr [.str "$a", .str "$zz"])]) [d0] = ["accmissing"] := by
   decide +kernel
 
 /-! ### `$lookup` -/
